@@ -211,8 +211,19 @@ def strat_hist(draw, tier):
     n = draw(st.sampled_from([0, 2, 6, 14, 25, 25]))
     base = draw(setup_s(tier, max_hw=5))
     for i in range(n):
-        mode = draw(st.sampled_from(['same_key', 'new_layout', 'new_layout', 'new_layout', 'other_pose']))
-        if mode == 'same_key':
+        mode = draw(st.sampled_from(['same_key', 'new_layout', 'new_layout', 'new_layout', 'other_pose', 'reshape_twin']))
+        if mode == 'reshape_twin':
+            # same cells in row-major order, other shape (a cache key that forgets the shape would collide)
+            q = copy.deepcopy(q0)
+            h, w = M.shape(q['state'])
+            flat = [o for r in q['state']['grid'] for o in r]
+            k = draw(st.sampled_from([d for d in range(1, h * w + 1) if (h * w) % d == 0]))
+            q['state']['grid'] = [flat[r * k:(r + 1) * k] for r in range(h * w // k)]
+            free = [p for p in M.positions(q['state']) if not M.blocks_movement(M.cell(q['state'], p))]
+            p = draw(st.sampled_from(free))
+            q['state']['agent'][0], q['state']['agent'][1] = p
+            q['area'] = [[-1, 0], [-1, 1]]
+        elif mode == 'same_key':
             q = copy.deepcopy(q0)
         elif mode == 'other_pose':
             q = copy.deepcopy(q0)
@@ -234,14 +245,34 @@ def strat_hist(draw, tier):
     return {'q': q0, 'others': others}
 
 
+def truth_shortest(q):
+    sd = q['state']
+    det_chain = [n for n in q['comp']['chain'] if n in M.DETERMINISTIC] or ['move_agent']
+    nd = M.step_det(sd, q['action'], det_chain)
+    return M.reward({'name': 'getting_closer_shortest_path', 'object_type': 'Exit', 'reward_closer': 1.0, 'reward_further': -1.0}, sd, q['action'], nd)
+
+
 def oracle_hist(case, ctx):
     q0 = case['q']
+    # half of the other questions come first (an earlier call may have poisoned a cache), the rest in between
+    others = case['others']
+    pre, post = others[: len(others) // 3], others[len(others) // 3:]
+    for q in pre:
+        ans = guarded(ctx, f'question {q["kind"]}', ask, q)
+        if q['kind'] == 'shortest' and ans != truth_shortest(q):
+            ctx.fail(f'getting_closer_shortest_path = {ans} on a {M.shape(q["state"])} grid, breadth-first search on the layout gives {truth_shortest(q)} (after earlier questions on other grids)', {'kind': 'history'})
+    case = dict(case, others=post)
     first = guarded(ctx, f'question {q0["kind"]}', ask, q0)
+    layouts = set()
     seen = {json.dumps([q0['state'], q0['area']], sort_keys=True)}
     rehits = 0
-    layouts = set()
+    for q in pre:
+        seen.add(json.dumps([q['state'], q['area']], sort_keys=True))
+        layouts.add(json.dumps([[not M.blocks_movement(o) for o in r] for r in q['state']['grid']]))
     for q in case['others']:
-        guarded(ctx, f'question {q["kind"]}', ask, q)
+        ans = guarded(ctx, f'question {q["kind"]}', ask, q)
+        if q['kind'] == 'shortest' and ans != truth_shortest(q):
+            ctx.fail(f'getting_closer_shortest_path = {ans} on a {M.shape(q["state"])} grid, breadth-first search on the layout gives {truth_shortest(q)} (after earlier questions on other grids)', {'kind': 'history'})
         k = json.dumps([q['state'], q['area']], sort_keys=True)
         rehits += k in seen
         seen.add(k)
@@ -257,7 +288,9 @@ def oracle_hist(case, ctx):
         exp = M.reward({'name': 'getting_closer_shortest_path', 'object_type': 'Exit', 'reward_closer': 1.0, 'reward_further': -1.0}, sd, q0['action'], nd)
         if first != exp or again != exp:
             ctx.fail(f'getting_closer_shortest_path = {first}/{again}, breadth-first search on the layout gives {exp}', {'kind': 'history'})
-    ctx.ev.case(case, nt=(rehits > 0 or len(layouts) > 10), classes=['q:' + q0['kind']] + (['cache_key_rehit'] if rehits else []) + (['>10_layouts'] if len(layouts) > 10 else []))
+    twins = sum(1 for q in others if M.shape(q['state']) != M.shape(q0['state']) and sorted(o for r in q['state']['grid'] for o in r) == sorted(o for r in q0['state']['grid'] for o in r))
+    ctx.ev.case(case, nt=(rehits > 0 or len(layouts) > 10), classes=['q:' + q0['kind']] + (['cache_key_rehit'] if rehits else []) + (['>10_layouts'] if len(layouts) > 10 else [])
+                + (['reshape_twin'] if twins else []))
 
 
 # ------------------------------------------------------------------ shipped compositions
@@ -306,7 +339,7 @@ CHECKS = [
           required=['changed', 'box', 'nested_box', 'door', 'holding', 'view==grid', 'door_opened_in_place', 'obs:partially_occluded', 'obs:raytracing']),
     Check('history', oracle_hist, strategy=strat_hist, examples={'quick': 120, 'thorough': 500}, shards={'quick': 6, 'thorough': 16},
           rule='a deterministic question (step / observation / reward / shortest-path reward / termination) asked before and after 0-25 other questions (same keys, other poses, > 10 new walkability layouts)',
-          required=['cache_key_rehit', '>10_layouts', 'q:shortest', 'q:obs']),
+          required=['cache_key_rehit', '>10_layouts', 'q:shortest', 'q:obs', 'reshape_twin']),
     Check('shipped', oracle_shipped, strategy=strat_shipped, examples={'quick': 3, 'thorough': 10}, shards={'quick': 4, 'thorough': 16},
           rule='all 22 shipped configurations (and perturbed ones) driven through the functional interface: purity and alias-freedom at every step'),
 ]
